@@ -48,30 +48,38 @@ Notation do_download := (do_download sha).
 Notation resolve := (resolve sha meta).
 Notation scan := (scan sha meta).
 
+Definition resp_status (r : resp) : option N :=
+  match r with RBody st _ | RBreak st _ => Some st | RFail => None end.
+
 (* ---- transfer ------------------------------------------------------------------------ *)
 Lemma transfer_not_cached w fn res w' r : transfer w fn res = (w', r) -> r <> DOk true.
 Proof.
-  unfold transfer. destruct (wscript w) as [|[st b|st b|] s]; intro H; inversion H; discriminate.
+  unfold transfer. destruct (wscript w) as [|[st b|st b|] s]; try destruct (raises_for_status st);
+    intro H; inversion H; discriminate.
 Qed.
 
 Lemma transfer_exn_class w fn res w' e :
-  transfer w fn res = (w', DExn e) -> e = ConnectionError \/ e = ChunkedEncodingError.
+  transfer w fn res = (w', DExn e) ->
+  e = ConnectionError \/ e = ChunkedEncodingError \/ e = HTTPError.
 Proof.
-  unfold transfer. destruct (wscript w) as [|[st b|st b|] s]; intro H; inversion H; auto.
+  unfold transfer. destruct (wscript w) as [|[st b|st b|] s]; try destruct (raises_for_status st);
+    intro H; inversion H; auto.
 Qed.
 
 Lemma transfer_ok w fn res w' :
   transfer w fn res = (w', DOk false) ->
-  exists st b s, wscript w = RBody st b :: s /\ wscript w' = s /\
+  exists st b s, wscript w = RBody st b :: s /\ raises_for_status st = false /\ wscript w' = s /\
                  wdir w' = write (wdir w) fn b /\ wlog w' = res :: wlog w.
 Proof.
-  unfold transfer. destruct (wscript w) as [|[st b|st b|] s] eqn:E; intro H; inversion H.
+  unfold transfer. destruct (wscript w) as [|[st b|st b|] s] eqn:E;
+    try destruct (raises_for_status st) eqn:R; intro H; inversion H.
   exists st, b, s. cbn. auto.
 Qed.
 
 Lemma transfer_logs w fn res w' r : transfer w fn res = (w', r) -> wlog w' = res :: wlog w.
 Proof.
-  unfold transfer. destruct (wscript w) as [|[st b|st b|] s]; intro H; inversion H; reflexivity.
+  unfold transfer. destruct (wscript w) as [|[st b|st b|] s]; try destruct (raises_for_status st);
+    intro H; inversion H; reflexivity.
 Qed.
 
 Lemma transfer_suffix w fn res w' r :
@@ -79,7 +87,15 @@ Lemma transfer_suffix w fn res w' r :
 Proof.
   unfold transfer. destruct (wscript w) as [|x s] eqn:E; intro H.
   - inversion H. exists []. reflexivity.
-  - exists [x]. destruct x; inversion H; reflexivity.
+  - exists [x]. destruct x as [st b|st b|]; try destruct (raises_for_status st); inversion H; reflexivity.
+Qed.
+
+(* an error status fails the transfer before anything is written *)
+Lemma transfer_error_status w fn res r s st :
+  wscript w = r :: s -> resp_status r = Some st -> raises_for_status st = true ->
+  transfer w fn res = (mkW (wdir w) s (res :: wlog w), DExn HTTPError).
+Proof.
+  intros W RS R. unfold transfer. rewrite W. destruct r as [st0 b|st0 b|]; inversion RS; subst; rewrite R; reflexivity.
 Qed.
 
 (* ---- (1) reuse only if the digest matches --------------------------------------------- *)
@@ -116,11 +132,11 @@ Qed.
 
 (* ... and whatever is there under that name is overwritten by what the server sends *)
 Theorem stale_without_digest_replaced w fn res st b s :
-  adv_of res = None -> wscript w = RBody st b :: s ->
+  adv_of res = None -> wscript w = RBody st b :: s -> raises_for_status st = false ->
   exists w', do_download w fn res = (w', DOk false) /\ lookup (wdir w') fn = Some b /\
              (forall g, g <> fn -> lookup (wdir w') g = lookup (wdir w) g) /\ wlog w' = res :: wlog w.
 Proof.
-  intros A W. unfold CacheC15.do_download. rewrite A. unfold transfer. rewrite W.
+  intros A W R. unfold CacheC15.do_download. rewrite A. unfold transfer. rewrite W, R.
   eexists. split; [reflexivity|]. cbn [wdir wlog]. repeat split.
   - apply lookup_write_same.
   - intros g N. apply lookup_write_other; auto.
@@ -133,8 +149,12 @@ Theorem mismatch_never_kept w fn res a c w' r :
   do_download w fn res = (w', r) ->
   r <> DOk true /\ wlog w' = res :: wlog w /\
   match wscript w with
-  | RBody _ b :: _ => r = DOk false /\ lookup (wdir w') fn = Some b
-  | RBreak _ b :: _ => r = DExn ChunkedEncodingError /\ lookup (wdir w') fn = Some b
+  | RBody st b :: _ =>
+      if raises_for_status st then r = DExn HTTPError /\ lookup (wdir w') fn = None
+      else r = DOk false /\ lookup (wdir w') fn = Some b
+  | RBreak st b :: _ =>
+      if raises_for_status st then r = DExn HTTPError /\ lookup (wdir w') fn = None
+      else r = DExn ChunkedEncodingError /\ lookup (wdir w') fn = Some b
   | _ => r = DExn ConnectionError /\ lookup (wdir w') fn = None
   end.
 Proof.
@@ -143,21 +163,22 @@ Proof.
   intro H. split; [eapply transfer_not_cached; eauto|]. split.
   { apply transfer_logs in H. exact H. }
   unfold transfer in H. cbn [wscript set_dir wdir wlog] in H.
-  destruct (wscript w) as [|[st b|st b|] s]; inversion H; subst; cbn [wdir];
+  destruct (wscript w) as [|[st b|st b|] s]; try destruct (raises_for_status st);
+    inversion H; subst; cbn [wdir];
     try (split; [reflexivity|]); try apply lookup_write_same; apply lookup_remove_same.
 Qed.
 
 Theorem mismatch_replaced w fn res a c st b s :
   adv_of res = Some a -> lookup (wdir w) fn = Some c -> sha c <> a ->
-  wscript w = RBody st b :: s ->
+  wscript w = RBody st b :: s -> raises_for_status st = false ->
   exists w', do_download w fn res = (w', DOk false) /\
              lookup (wdir w') fn = Some b /\
              (forall g, g <> fn -> lookup (wdir w') g = lookup (wdir w) g) /\
              wlog w' = res :: wlog w /\ wscript w' = s.
 Proof.
-  intros A L S W. unfold CacheC15.do_download. rewrite A, L.
+  intros A L S W R. unfold CacheC15.do_download. rewrite A, L.
   destruct (String.eqb (sha c) a) eqn:E. { apply String.eqb_eq in E. congruence. }
-  unfold transfer. cbn [wscript set_dir wdir wlog]. rewrite W.
+  unfold transfer. cbn [wscript set_dir wdir wlog]. rewrite W, R.
   eexists. split; [reflexivity|]. cbn [wdir wlog wscript]. repeat split.
   - apply lookup_write_same.
   - intros g N. rewrite lookup_write_other by auto. apply lookup_remove_other; auto.
@@ -166,13 +187,13 @@ Qed.
 (* every crash point of an earlier run that was writing [served] (k = number of bytes that
    reached the disk, any k), whatever else is in the directory *)
 Theorem partial_file_replaced d fn served k res a st b s log :
-  adv_of res = Some a -> sha (take k served) <> a ->
+  adv_of res = Some a -> sha (take k served) <> a -> raises_for_status st = false ->
   exists w', do_download (mkW (crashed d fn served k) (RBody st b :: s) log) fn res = (w', DOk false) /\
              lookup (wdir w') fn = Some b /\
              (forall g, g <> fn -> lookup (wdir w') g = lookup d g) /\
              wlog w' = res :: log.
 Proof.
-  intros A S.
+  intros A S R.
   destruct (mismatch_replaced (mkW (crashed d fn served k) (RBody st b :: s) log) fn res a
               (take k served) st b s A) as [w' [H1 [H2 [H3 [H4 _]]]]]; auto.
   - cbn. unfold crashed. apply lookup_write_same.
@@ -189,12 +210,13 @@ Proof.
   - unfold CacheC15.do_download.
     destruct (adv_of res) as [a|]; destruct (lookup (wdir w) fn) as [c|];
       try destruct (String.eqb (sha c) a); try (intro H; inversion H; fail);
-      intro H; apply transfer_ok in H; destruct H as [st [b [s [_ [_ [D _]]]]]];
+      intro H; apply transfer_ok in H; destruct H as [st [b [s [_ [_ [_ [D _]]]]]]];
       exists b; rewrite D; apply lookup_write_same.
 Qed.
 
 Lemma do_download_exn_class w fn res w' e :
-  do_download w fn res = (w', DExn e) -> e = ConnectionError \/ e = ChunkedEncodingError.
+  do_download w fn res = (w', DExn e) ->
+  e = ConnectionError \/ e = ChunkedEncodingError \/ e = HTTPError.
 Proof.
   unfold CacheC15.do_download.
   destruct (adv_of res) as [a|]; destruct (lookup (wdir w) fn) as [c|];
@@ -214,65 +236,58 @@ Qed.
 
 Lemma do_download_fresh w fn res w' :
   do_download w fn res = (w', DOk false) ->
-  exists st b, In (RBody st b) (wscript w) /\ lookup (wdir w') fn = Some b.
+  exists st b, In (RBody st b) (wscript w) /\ raises_for_status st = false /\ lookup (wdir w') fn = Some b.
 Proof.
   unfold CacheC15.do_download.
   destruct (adv_of res) as [a|]; destruct (lookup (wdir w) fn) as [c|];
     try destruct (String.eqb (sha c) a); try (intro H; inversion H; fail);
-    intro H; apply transfer_ok in H; destruct H as [st [b [s [W [_ [D _]]]]]];
+    intro H; apply transfer_ok in H; destruct H as [st [b [s [W [R [_ [D _]]]]]]];
     exists st, b; cbn [wscript set_dir] in W; rewrite W, D;
-    (split; [left; reflexivity | apply lookup_write_same]).
+    (split; [left; reflexivity | split; [exact R|apply lookup_write_same]]).
 Qed.
 
-(* the None branch of [resolve] is dead code *)
-Lemma resolve_file_present w c w' : resolve w c = (w', RExn OtherError) ->
-  exists fn w1 cached content, cfile c = Some fn /\ do_download w fn (cres c) = (w1, DOk cached) /\
-     lookup (wdir w1) fn = Some content /\ meta fn content = MOther.
-Proof.
-  unfold CacheC15.resolve. destruct (cfile c) as [fn|]; [|intro H; inversion H].
-  destruct (do_download w fn (cres c)) as [w1 r] eqn:D. destruct r as [cached|e].
-  - destruct (do_download_present _ _ _ _ _ D) as [content L]. rewrite L.
-    destruct (meta fn content) eqn:M; intro H; inversion H; subst.
-    exists fn, w', cached, content. auto.
-  - intro H. inversion H. subst. apply do_download_exn_class in D. destruct D; discriminate.
-Qed.
-
-(* (3) a freshly downloaded file whose metadata fails with MetadataError is removed again;
-   a reused (digest-verified) one is kept *)
+(* (3) FULL: a freshly downloaded file whose metadata cannot be read - for whatever reason - is
+   removed again, the other files stay *)
 Theorem undecodable_fresh_removed w c fn w1 content :
   cfile c = Some fn -> do_download w fn (cres c) = (w1, DOk false) ->
-  lookup (wdir w1) fn = Some content -> meta fn content = MMetaErr ->
-  exists w', resolve w c = (w', RExn MetadataError) /\ lookup (wdir w') fn = None /\
+  lookup (wdir w1) fn = Some content -> meta fn content <> MReadable ->
+  exists w' e, resolve w c = (w', RExn e) /\ (e = MetadataError \/ e = OtherError) /\
+             lookup (wdir w') fn = None /\
              (forall g, g <> fn -> lookup (wdir w') g = lookup (wdir w1) g) /\
              wlog w' = wlog w1.
 Proof.
-  intros F D L M. unfold CacheC15.resolve. rewrite F, D, L, M.
-  eexists. split; [reflexivity|]. cbn. repeat split.
-  - apply lookup_remove_same.
-  - intros g N. apply lookup_remove_other; auto.
+  intros F D L M. unfold CacheC15.resolve. rewrite F, D, L.
+  destruct (meta fn content) eqn:E; [congruence| |];
+    eexists; eexists; (split; [reflexivity|]); cbn; (split; [auto|]); repeat split;
+    try apply lookup_remove_same; intros g N; apply lookup_remove_other; auto.
 Qed.
 
+(* a reused (digest-verified) file is kept even if it cannot be read: it is the index's file *)
 Theorem undecodable_cached_kept w c fn content :
   cfile c = Some fn -> do_download w fn (cres c) = (w, DOk true) ->
-  lookup (wdir w) fn = Some content -> meta fn content = MMetaErr ->
-  resolve w c = (w, RExn MetadataError).
+  lookup (wdir w) fn = Some content -> meta fn content <> MReadable ->
+  exists e, resolve w c = (w, RExn e) /\ (e = MetadataError \/ e = OtherError).
 Proof.
-  intros F D L M. unfold CacheC15.resolve. rewrite F, D, L, M. reflexivity.
+  intros F D L M. unfold CacheC15.resolve. rewrite F, D, L.
+  destruct (meta fn content) eqn:E; [congruence| |]; eexists; (split; [reflexivity|auto]).
 Qed.
 
-(* converse direction: whenever resolve reports MetadataError, either the file was a digest-
-   verified cache hit (kept) or the fresh file is gone *)
-Theorem metadata_error_leaves_no_fresh_file w c w' :
-  resolve w c = (w', RExn MetadataError) ->
+(* converse direction: whenever resolve reports an extraction failure, either the file was a
+   digest-verified cache hit (kept) or the fresh file is gone *)
+Theorem extraction_error_leaves_no_fresh_file w c w' e :
+  resolve w c = (w', RExn e) -> e = MetadataError \/ e = OtherError ->
   exists fn, cfile c = Some fn /\
     ((do_download w fn (cres c) = (w', DOk true)) \/ lookup (wdir w') fn = None).
 Proof.
-  unfold CacheC15.resolve. destruct (cfile c) as [fn|]; [|intro H; inversion H].
-  destruct (do_download w fn (cres c)) as [w1 r] eqn:D. destruct r as [cached|e].
+  unfold CacheC15.resolve. destruct (cfile c) as [fn|]; [|intros H [E|E]; inversion H; subst; discriminate].
+  destruct (do_download w fn (cres c)) as [w1 r] eqn:D. destruct r as [cached|e0].
   - destruct (do_download_present _ _ _ _ _ D) as [content L]. rewrite L.
-    destruct (meta fn content) eqn:M; intro H; inversion H; subst.
-    exists fn. split; auto. destruct cached; [left; exact D|right; cbn; apply lookup_remove_same].
-  - intro H. inversion H. subst. apply do_download_exn_class in D. destruct D; discriminate.
+    destruct (meta fn content) eqn:M; intros H HE; inversion H; subst;
+      try (destruct HE; discriminate);
+      exists fn; (split; [reflexivity|]);
+      (destruct cached; [left; exact D|right; cbn; apply lookup_remove_same]).
+  - intros H HE. inversion H. subst. apply do_download_exn_class in D.
+    destruct D as [D|[D|D]]; subst; destruct HE; discriminate.
 Qed.
 
 (* what a successful resolve hands to the solver *)
@@ -281,7 +296,7 @@ Lemma resolve_ok_sound w c w' cached :
   exists fn content, cfile c = Some fn /\ lookup (wdir w') fn = Some content /\
     meta fn content = MReadable /\
     (if cached then exists a, adv_of (cres c) = Some a /\ sha content = a /\ w' = w
-     else exists st, In (RBody st content) (wscript w)).
+     else exists st, In (RBody st content) (wscript w) /\ raises_for_status st = false).
 Proof.
   unfold CacheC15.resolve. destruct (cfile c) as [fn|]; [|intro H; inversion H].
   destruct (do_download w fn (cres c)) as [w1 r] eqn:D. destruct r as [cd|e]; [|intro H; inversion H].
@@ -291,8 +306,8 @@ Proof.
   destruct cached.
   - apply reuse_only_if_digest in D. destruct D as [a [c0 [A [L0 [S E]]]]]. subst.
     rewrite L in L0. inversion L0. subst. exists (sha c0). auto.
-  - apply do_download_fresh in D. destruct D as [st [b [I L2]]]. rewrite L in L2. inversion L2. subst.
-    exists st. exact I.
+  - apply do_download_fresh in D. destruct D as [st [b [I [R L2]]]]. rewrite L in L2. inversion L2. subst.
+    exists st. auto.
 Qed.
 
 Lemma resolve_suffix w c w' r : resolve w c = (w', r) -> exists pre, wscript w = (pre ++ wscript w')%list.
@@ -301,18 +316,19 @@ Proof.
   destruct (do_download w fn (cres c)) as [w1 r1] eqn:D.
   apply do_download_suffix in D. destruct r1 as [cd|e]; [|intro H; inversion H; subst; exact D].
   destruct (lookup (wdir w1) fn) as [content|]; [|intro H; inversion H; subst; exact D].
-  destruct (meta fn content); intro H; inversion H; subst; try exact D.
-  destruct cd; cbn; exact D.
+  destruct (meta fn content); intro H; inversion H; subst; try exact D;
+    destruct cd; cbn; exact D.
 Qed.
 
-(* ---- (4) the scan: what is used is digest-verified or was transferred in this run ------- *)
+(* ---- (4) the scan: what is used is digest-verified or was transferred in this run with a
+   non-error status ------------------------------------------------------------------------- *)
 Theorem used_file_verified_or_fresh allow maxdg cs : forall w tried w' c cached,
   scan allow maxdg w cs tried = (w', SOk c cached) ->
   In c cs /\
   exists fn content, cfile c = Some fn /\ lookup (wdir w') fn = Some content /\
     meta fn content = MReadable /\
     (if cached then exists a, adv_of (cres c) = Some a /\ sha content = a
-     else exists st, In (RBody st content) (wscript w)).
+     else exists st, In (RBody st content) (wscript w) /\ raises_for_status st = false).
 Proof.
   induction cs as [|c0 rest IH]; intros w tried w' c cached H; cbn in H. { inversion H. }
   destruct (cver c0) as [v|].
@@ -330,13 +346,13 @@ Proof.
      exists fn content, cfile c' = Some fn /\ lookup (wdir w'') fn = Some content /\
        meta fn content = MReadable /\
        (if cd then exists a, adv_of (cres c') = Some a /\ sha content = a
-        else exists st, In (RBody st content) (wscript w))).
+        else exists st, In (RBody st content) (wscript w) /\ raises_for_status st = false)).
   { intros w'' c' cd H2.
     assert (H3 : scan allow maxdg w1 rest (addN v tried) = (w'', SOk c' cd)).
     { destruct maxdg as [m|]; auto. destruct (N.leb m _); [inversion H2|auto]. }
     apply IH in H3. destruct H3 as [I [fn [content [F [L [M K]]]]]].
     split; [right; exact I|]. exists fn, content. repeat split; auto.
-    destruct cd; auto. destruct K as [st K]. exists st.
+    destruct cd; auto. destruct K as [st [K K2]]. exists st. split; [|exact K2].
     apply resolve_suffix in R. destruct R as [pre E]. rewrite E. apply in_or_app. right. exact K. }
   destruct r as [cd|e].
   - destruct (cname_ok c0).
@@ -348,15 +364,51 @@ Proof.
   - destruct e; try (inversion H; fail). apply NEXT in H. exact H.
 Qed.
 
-(* (5, positive part) when the transfer of the best candidate breaks with an exception the
-   run fails with that exception; it does not go on to another version *)
-Theorem broken_transfer_fails_run allow maxdg w c rest tried v fn w1 e :
+(* (5) FULL: when the transfer of the candidate being tried fails - connection error, broken
+   stream, or an error status - the run fails with that exception; it does not go on to another
+   version *)
+Theorem failed_transfer_fails_run allow maxdg w c rest tried v fn w1 e :
   cver c = Some v -> (csdist c && negb allow) = false -> cfile c = Some fn ->
   do_download w fn (cres c) = (w1, DExn e) ->
   scan allow maxdg w (c :: rest) tried = (w1, SExn e) /\ e <> NoCandidate /\ e <> MetadataError.
 Proof.
   intros V S F D. cbn. rewrite V, S. unfold CacheC15.resolve. rewrite F, D.
-  apply do_download_exn_class in D. destruct D; subst; repeat split; discriminate.
+  apply do_download_exn_class in D. destruct D as [D|[D|D]]; subst; repeat split; discriminate.
+Qed.
+
+(* the answer to the request for the tried candidate's file has an error status (an error page
+   served as the file): nothing is saved under that name, exactly one request is made, the run
+   ends with HTTPError.  [not a cache hit] is the only hypothesis on the directory. *)
+Theorem error_status_fails_run allow maxdg w c rest tried v fn r s st :
+  cver c = Some v -> (csdist c && negb allow) = false -> cfile c = Some fn ->
+  (forall a c0, adv_of (cres c) = Some a -> lookup (wdir w) fn = Some c0 -> sha c0 <> a) ->
+  wscript w = r :: s -> resp_status r = Some st -> raises_for_status st = true ->
+  exists w1, scan allow maxdg w (c :: rest) tried = (w1, SExn HTTPError) /\
+             wscript w1 = s /\ wlog w1 = cres c :: wlog w /\
+             (lookup (wdir w1) fn = None \/ lookup (wdir w1) fn = lookup (wdir w) fn) /\
+             (forall g, g <> fn -> lookup (wdir w1) g = lookup (wdir w) g).
+Proof.
+  intros V S F NH W RS R.
+  assert (D : exists w1, do_download w fn (cres c) = (w1, DExn HTTPError) /\ wscript w1 = s /\
+              wlog w1 = cres c :: wlog w /\
+              (lookup (wdir w1) fn = None \/ lookup (wdir w1) fn = lookup (wdir w) fn) /\
+              (forall g, g <> fn -> lookup (wdir w1) g = lookup (wdir w) g)).
+  { unfold CacheC15.do_download.
+    destruct (adv_of (cres c)) as [a|] eqn:A; destruct (lookup (wdir w) fn) as [c0|] eqn:L.
+    - destruct (String.eqb (sha c0) a) eqn:E.
+      { apply String.eqb_eq in E. exfalso. exact (NH a c0 eq_refl eq_refl E). }
+      rewrite (transfer_error_status _ fn (cres c) r s st) by (cbn; auto).
+      eexists. split; [reflexivity|]. cbn. repeat split; auto.
+      + left. apply lookup_remove_same.
+      + intros g N. apply lookup_remove_other; auto.
+    - rewrite (transfer_error_status _ fn (cres c) r s st) by auto.
+      eexists. split; [reflexivity|]. cbn. repeat split; auto.
+    - rewrite (transfer_error_status _ fn (cres c) r s st) by auto.
+      eexists. split; [reflexivity|]. cbn. repeat split; auto.
+    - rewrite (transfer_error_status _ fn (cres c) r s st) by auto.
+      eexists. split; [reflexivity|]. cbn. repeat split; auto. }
+  destruct D as [w1 [D [D2 [D3 [D4 D5]]]]]. exists w1. repeat split; auto.
+  eapply failed_transfer_fails_run; eauto.
 Qed.
 
 (* a readable body served for the best candidate is what the scan returns *)
@@ -369,13 +421,12 @@ Proof.
   intros V S F N D L M. cbn. rewrite V, S. unfold CacheC15.resolve. rewrite F, D, L, M, N. reflexivity.
 Qed.
 
-
 (* ---- frame: files of other names are never touched ---------------------------------------- *)
 Lemma transfer_frame w fn res w' r g :
   g <> fn -> transfer w fn res = (w', r) -> lookup (wdir w') g = lookup (wdir w) g.
 Proof.
-  intros N. unfold transfer. destruct (wscript w) as [|[st b|st b|] s]; intro H; inversion H; cbn [wdir];
-    auto; apply lookup_write_other; auto.
+  intros N. unfold transfer. destruct (wscript w) as [|[st b|st b|] s]; try destruct (raises_for_status st);
+    intro H; inversion H; cbn [wdir]; auto; apply lookup_write_other; auto.
 Qed.
 
 Theorem do_download_frame w fn res w' r g :
@@ -398,8 +449,8 @@ Proof.
   pose proof (do_download_frame _ _ _ _ _ g NE D) as FR.
   destruct r1 as [cd|e]; [|intro H; inversion H; subst; exact FR].
   destruct (lookup (wdir w1) fn) as [content|]; [|intro H; inversion H; subst; exact FR].
-  destruct (meta fn content); intro H; inversion H; subst; try exact FR.
-  destruct cd; [exact FR|]. cbn [set_dir wdir]. rewrite lookup_remove_other by auto. exact FR.
+  destruct (meta fn content); intro H; inversion H; subst; try exact FR;
+    (destruct cd; [exact FR|]); cbn [set_dir wdir]; rewrite lookup_remove_other by auto; exact FR.
 Qed.
 
 Theorem scan_frame allow maxdg cs g : forall w tried w' r,
@@ -429,34 +480,24 @@ Qed.
    answers with a body whose digest is the advertised one, the file the call hands back has the
    advertised digest *)
 Theorem honest_transfer_heals w fn res a st b s :
-  adv_of res = Some a -> wscript w = RBody st b :: s -> sha b = a ->
+  adv_of res = Some a -> wscript w = RBody st b :: s -> raises_for_status st = false -> sha b = a ->
   exists w' cached content, do_download w fn res = (w', DOk cached) /\
     lookup (wdir w') fn = Some content /\ sha content = a.
 Proof.
-  intros A W S. destruct (lookup (wdir w) fn) as [c|] eqn:L.
+  intros A W R S. destruct (lookup (wdir w) fn) as [c|] eqn:L.
   - destruct (String.eqb (sha c) a) eqn:E.
     + apply String.eqb_eq in E. exists w, true, c. split; [|auto].
       eapply reuse_if_digest; eauto.
     + assert (NE : sha c <> a) by (intro X; apply String.eqb_neq in E; auto).
-      destruct (mismatch_replaced w fn res a c st b s A L NE W) as [w' [H1 [H2 _]]].
+      destruct (mismatch_replaced w fn res a c st b s A L NE W R) as [w' [H1 [H2 _]]].
       exists w', false, b. auto.
-  - unfold CacheC15.do_download. rewrite A, L. unfold transfer. rewrite W.
+  - unfold CacheC15.do_download. rewrite A, L. unfold transfer. rewrite W, R.
     eexists. exists false, b. split; [reflexivity|]. cbn [wdir]. split; [apply lookup_write_same|exact S].
 Qed.
 
-
 End CacheP.
 
-(* ---- refutations (concrete witnesses, closed by computation) ----------------------------- *)
-(* the statement of the property about transfers, for the scan: if the server answers the
-   request for the best candidate's file with an error status, the run fails (or the same
-   candidate is what comes out); it never ends with another candidate *)
-Definition transfer_full_statement : Prop :=
-  forall (sha : bytes -> string) (meta : fname -> bytes -> mres) d st b s c rest w' r,
-    raises_for_status st = true ->
-    scan sha meta true None (mkW d (RBody st b :: s) []) (c :: rest) [] = (w', r) ->
-    (exists e, r = SExn e) \/ (exists cached, r = SOk c cached).
-
+(* ---- concrete runs ---------------------------------------------------------------------- *)
 Definition w_page : bytes := "<html>503 Service Unavailable</html>".
 Definition w_good1 : bytes := "PK-good-foo-1.0".
 Definition w_good2 : bytes := "PK-good-foo-2.0".
@@ -467,30 +508,21 @@ Definition w_meta : fname -> bytes -> mres :=
 Definition w_c1 : cand := mkC (Some w_f1) (w_f1 ++ "#sha256=" ++ toy_sha w_good1) (Some 1%N) false true.
 Definition w_c2 : cand := mkC (Some w_f2) (w_f2 ++ "#sha256=" ++ toy_sha w_good2) (Some 2%N) false true.
 
-(* an error page (status 503) is saved as foo-2.0, fails to parse, is removed, and the scan
-   quietly settles for foo-1.0: no error, empty-handed for 2.0 *)
-Theorem transfer_refuted :
-  exists w', scan toy_sha w_meta true None
-               (mkW [] [RBody 503 w_page; RBody 200 w_good1] []) [w_c2; w_c1] []
-             = (w', SOk w_c1 false)
-          /\ lookup (wdir w') w_f2 = None /\ lookup (wdir w') w_f1 = Some w_good1
-          /\ List.length (wlog w') = 2.
-Proof. eexists. vm_compute. repeat split. Qed.
-
-Theorem transfer_full_statement_refuted : ~ transfer_full_statement.
-Proof.
-  intro H.
-  specialize (H toy_sha w_meta [] 503%N w_page [RBody 200 w_good1] w_c2 [w_c1]).
-  destruct (scan toy_sha w_meta true None (mkW [] [RBody 503 w_page; RBody 200 w_good1] []) [w_c2; w_c1] [])
-    as [w' r] eqn:E.
-  specialize (H w' r eq_refl eq_refl).
-  vm_compute in E. inversion E. subst r.
-  destruct H as [[e H]|[cd H]]; inversion H.
-Qed.
+(* the former witness of "error page -> next version": a 503 error page answered for foo-2.0 now
+   ends the run with HTTPError; nothing is saved and foo-1.0 is not even requested *)
+Example error_page_now_fails :
+  scan toy_sha w_meta true None (mkW [] [RBody 503 w_page; RBody 200 w_good1] []) [w_c2; w_c1] []
+  = (mkW [] [RBody 200 w_good1] [cres w_c2], SExn HTTPError).
+Proof. vm_compute. reflexivity. Qed.
 
 (* a fresh transfer is not compared with the advertised digest: an altered, still readable
    body is used in this run and stays in the directory (the NEXT run replaces it, by
    mismatch_replaced) *)
+Definition fresh_transfer_verified_full_statement : Prop :=
+  forall (sha : bytes -> string) (meta : fname -> bytes -> mres) allow maxdg w cs tried w' c a fn content,
+    scan sha meta allow maxdg w cs tried = (w', SOk c false) ->
+    adv_of (cres c) = Some a -> cfile c = Some fn -> lookup (wdir w') fn = Some content -> sha content = a.
+
 Definition w_alt2 : bytes := "PK-good-foo-2.0-altered".
 Definition w_meta2 : fname -> bytes -> mres :=
   meta_of_table [(w_f2, w_good2, MReadable); (w_f2, w_alt2, MReadable)].
@@ -501,28 +533,11 @@ Proof.
   eexists. eexists. vm_compute. repeat split. intro H. inversion H.
 Qed.
 
-(* the unguarded form of (3): "a freshly downloaded file whose metadata cannot be read is
-   removed again" for every way reading can fail *)
-Definition undecodable_removed_full_statement : Prop :=
-  forall (sha : bytes -> string) (meta : fname -> bytes -> mres) w c fn w1 content w' r,
-    cfile c = Some fn -> do_download sha w fn (cres c) = (w1, DOk false) ->
-    lookup (wdir w1) fn = Some content -> meta fn content <> MReadable ->
-    resolve sha meta w c = (w', r) -> lookup (wdir w') fn = None.
-
-Definition w_meta3 : fname -> bytes -> mres := meta_of_table [(w_f2, w_alt2, MOther)].
-(* when reading fails with another exception class (zlib.error, EOFError, OSError,
-   NotImplementedError from zipfile) the file stays *)
-Theorem undecodable_other_exception_kept_refuted : ~ undecodable_removed_full_statement.
+Theorem fresh_transfer_verified_full_statement_refuted : ~ fresh_transfer_verified_full_statement.
 Proof.
   intro H.
-  specialize (H toy_sha w_meta3 (mkW [] [RBody 200 w_alt2] []) w_c2 w_f2).
-  destruct (do_download toy_sha (mkW [] [RBody 200 w_alt2] []) w_f2 (cres w_c2)) as [w1 r1] eqn:D.
-  destruct (resolve toy_sha w_meta3 (mkW [] [RBody 200 w_alt2] []) w_c2) as [w' r] eqn:R.
-  vm_compute in D. inversion D. subst w1 r1. clear D.
-  specialize (H _ w_alt2 w' r eq_refl eq_refl eq_refl).
-  vm_compute in R. inversion R. subst w' r. clear R.
-  assert (X : w_meta3 w_f2 w_alt2 <> MReadable) by (vm_compute; discriminate).
-  specialize (H X eq_refl). vm_compute in H. discriminate.
+  destruct fresh_transfer_unverified_refuted as [w' [a [S [A [L N]]]]].
+  apply N. eapply (H toy_sha w_meta2 true None _ _ _ w' w_c2 a w_f2 w_alt2 S A eq_refl L).
 Qed.
 
 (* hypotheses of the implications are satisfiable by non-trivial values *)
@@ -535,10 +550,13 @@ Example crash_example :
              = (w', DOk false) /\ lookup (wdir w') w_f2 = Some w_good2 /\ lookup (wdir w') w_f1 = Some w_good1.
 Proof. eexists. vm_compute. repeat split. Qed.
 
+Definition w_meta3 : fname -> bytes -> mres := meta_of_table [(w_f2, w_alt2, MOther)].
 Example undecodable_example :
-  exists w', resolve toy_sha w_meta (mkW [] [RBody 503 w_page] []) w_c2 = (w', RExn MetadataError)
-             /\ lookup (wdir w') w_f2 = None.
-Proof. eexists. vm_compute. split; reflexivity. Qed.
+  (exists w', resolve toy_sha w_meta (mkW [] [RBody 200 w_page] []) w_c2 = (w', RExn MetadataError)
+             /\ lookup (wdir w') w_f2 = None) /\
+  (exists w', resolve toy_sha w_meta3 (mkW [] [RBody 200 w_alt2] []) w_c2 = (w', RExn OtherError)
+             /\ lookup (wdir w') w_f2 = None).
+Proof. split; eexists; vm_compute; split; reflexivity. Qed.
 
 (* ---- index page: retry on 5xx ------------------------------------------------------------- *)
 (* obligations on the constants T1 read from _scan_page_links *)
@@ -617,7 +635,8 @@ Proof. vm_compute. split; reflexivity. Qed.
 (* obligations on the shape facts T1 read from _do_download / resolve_candidate / do_get_candidate:
    the model above is only faithful while these hold *)
 Lemma gen_download_shape :
-  dl_status_refs = 0%N /\ dl_digest_sep = "#sha256=" /\ dl_reuse_guarded_by_digest = true /\
-  dl_removes_on_mismatch = true /\ rc_except_class = EMetadata /\ rc_removal_guard_ok = true /\
+  dl_status_refs = 1%N /\ dl_status_check_before_write = true /\ dl_digest_sep = "#sha256=" /\
+  dl_reuse_guarded_by_digest = true /\
+  dl_removes_on_mismatch = true /\ rc_except_class = "Exception" /\ rc_removal_guard_ok = true /\
   rc_reraises = true /\ scan_handlers = [EMetadata].
 Proof. repeat split; reflexivity. Qed.
